@@ -27,6 +27,8 @@ import (
 	"github.com/openconfig/gnmi/ctree"
 	"github.com/openconfig/gnmi/connection"
 	"github.com/openconfig/gnmi/errlist"
+	"github.com/openconfig/gnmi/latency"
+	"github.com/openconfig/gnmi/metadata"
 	"github.com/openconfig/gnmi/manager"
 	pb "github.com/openconfig/gnmi/proto/gnmi"
 	"github.com/openconfig/gnmi/subscribe"
@@ -109,15 +111,35 @@ func dumpCache(c *cache.Cache, targets []string) map[string][]DLeaf {
 
 // runIngest feeds the steps to a fresh cache; the returned ops hold the
 // messages as the code saw them.
-func runIngest(targets []string, noEvent bool, ops []Op) ([]Op, []IObs) {
-	var c *cache.Cache
-	if noEvent {
-		c = cache.New(targets, cache.DisableEventDrivenEmulation())
-	} else {
-		c = cache.New(targets)
+// IOpts are the cache options of an ingest case.
+type IOpts struct{ NoEvent, SrvName, Latency bool }
+
+const latWindow = 10 * time.Nanosecond
+
+func runIngest(targets []string, io IOpts, ops []Op) ([]Op, []IObs) {
+	// the optional metadata are registered in package-level maps: start clean
+	metadata.UnregisterServerNameMetadata()
+	for _, typ := range []latency.StatType{latency.Avg, latency.Max, latency.Min} {
+		metadata.UnregisterIntValue(latency.MetadataName(latWindow, typ))
 	}
 	now := int64(1000)
 	cache.Now = func() time.Time { return time.Unix(0, now) }
+	latency.Now = cache.Now
+	var opts []cache.Option
+	if io.NoEvent {
+		opts = append(opts, cache.DisableEventDrivenEmulation())
+	}
+	if io.SrvName {
+		opts = append(opts, cache.WithServerName("srv"))
+	}
+	if io.Latency {
+		lw, err := cache.WithLatencyWindows([]string{"10ns"}, time.Nanosecond)
+		if err != nil {
+			vh.Die("latency windows: %v", err)
+		}
+		opts = append(opts, lw)
+	}
+	c := cache.New(targets, opts...)
 	seen := make([]Op, 0, len(ops))
 	obs := make([]IObs, 0, len(ops))
 	for _, op := range ops {
@@ -173,7 +195,7 @@ func gDump(nm *vh.Names, d map[string][]DLeaf) string {
 	return vh.List(parts)
 }
 
-func ingestTerm(nm *vh.Names, targets []string, ops []Op, obs []IObs) string {
+func ingestTerm(nm *vh.Names, targets []string, io IOpts, ops []Op, obs []IObs) string {
 	steps := make([]string, len(ops))
 	prev := ""
 	for i, op := range ops {
@@ -204,7 +226,8 @@ func ingestTerm(nm *vh.Names, targets []string, ops []Op, obs []IObs) string {
 		}
 		steps[i] = fmt.Sprintf("(IMsg %s, OIngest %s %s)", gNotif(nm, op.N), r, d)
 	}
-	return fmt.Sprintf("CIngest %s %s", nm.Path(targets), vh.List(steps))
+	return fmt.Sprintf("CIngest (%s, %s, %s) %s %s", vh.Bool(io.SrvName), vh.Bool(io.Latency), vh.Bool(!io.NoEvent),
+		nm.Path(targets), vh.List(steps))
 }
 
 // ---------------------------------------------------------------------------
